@@ -35,4 +35,18 @@ def testFxn (a b c : List Rat) (m : Rat) (v : Vec) : Rat :=
 
 def unitVec (n i : Nat) (s : Rat) : Vec := ⟨(List.range n).map (fun k => if k = i then s else 0)⟩
 
+/-- Control flow of one phase (relaxation or climbing) of `ISMPath.relax`:
+    `for i in range(maxsteps): step; d = …; if d < tolerance: break`.
+    Given the displacement measures `d` of the successive steps, the number of steps performed.
+    Each phase has its own loop: the climbing phase does not look at the relaxation phase's last `d`. -/
+def phaseSteps {K : Type} [LT K] [DecidableLT K] (tol : K) : Nat → List K → Nat
+  | 0, _ => 0
+  | _ + 1, [] => 0
+  | n + 1, d :: ds => if d < tol then 1 else 1 + phaseSteps tol n ds
+
+/-- `(relax steps, climb steps)` performed by `relax(relaxsteps, climbsteps, tolerance)`. -/
+def relaxCounts {K : Type} [LT K] [DecidableLT K] (tol : K) (relaxsteps climbsteps : Nat)
+    (dsRelax dsClimb : List K) : Nat × Nat :=
+  (phaseSteps tol relaxsteps dsRelax, phaseSteps tol climbsteps dsClimb)
+
 end Atomman.C20
